@@ -21,7 +21,7 @@ WORLD_CALLEES = [
     'FileTime :: now', 'std :: time :: SystemTime :: now', 'SystemTime :: now',
     'move_to_back_of_list', 'set_read_only', 'ensure_file_removed', 'ensure_file_touched', 'raw_cache :: ensure_file_touched',
     'collect_cached_files', 'apply_update', 'raw_cache :: prune', 'prune', 'ensure_directory', 'cleanup_temporary_directory',
-    'libc :: close', 'close', '. seek', '. reopen', '. sync_all', '. sync_all_or_panic', '. set_permissions', 'NamedTempFile :: new_in', 'finalize_tempfile', 'fix_tempfile_permissions', '. finalize_tempfile', '. maybe_sync_path', '. set_impl', '. put_impl', '. ensure_temp_dir', '. cleanup_temp_directory', '. definitely_cleanup', '. maybe_cleanup', '. maintain', '. event', '. weighted_event',
+    'libc :: close', 'close', '. seek', '. reopen', '. sync_all', '. sync_all_or_panic', '. set_permissions', 'NamedTempFile :: new_in', '. tempfile_in', 'CacheDir :: get', 'CacheDir :: touch', 'CacheDir :: set', 'CacheDir :: put', 'CacheDir :: ensure_temp_dir', 'CacheDir :: maintain', 'CacheDir :: maybe_cleanup', 'CacheDir :: definitely_cleanup', 'CacheDir :: cleanup_temp_directory', 'finalize_tempfile', 'fix_tempfile_permissions', '. finalize_tempfile', '. maybe_sync_path', '. set_impl', '. put_impl', '. ensure_temp_dir', '. cleanup_temp_directory', '. definitely_cleanup', '. maybe_cleanup', '. maintain', '. event', '. weighted_event',
 ]
 
 
@@ -1562,6 +1562,12 @@ impl Cache {
         req, ens = u.trait_methods[name].last_contract
         if name in ('set', 'put'):
             ens = [(l, t) for (l, t) in ens if 'r.unwrap()' not in t]
+            # the wrapper drops the estimate, not the fact that the write was one trigger event (whether it fired or not)
+            ens = ens + [('C10:every-write-is-exactly-one-trigger-event',
+                          'r.is_ok() ==> exists|fired: bool| #[trigger] observe_step(old(w).counter, self.spec_trigger().spec_scale(), fired, final(w).counter)')]
+            ens = ens + [('C11 C04 C09:exact-effect-when-nothing-failed',
+                          'r.is_ok() && final(w).hard_faults == old(w).hard_faults && old(w).dirs.contains(self.spec_base()) ==> exists|m: World, fired: bool| '
+                          '#[trigger] %s(*old(w), m, *final(w), self.spec_base(), str_bytes(name), pv(value), fired)' % ('set_exact' if name == 'set' else 'put_exact'))]
         m.contract(requires=[(l, t) for (l, t) in req] + [('', 'self.wf()')], ensures=ens)
     u.text('}\n')
     return im
